@@ -227,6 +227,77 @@ theorem dump_json_text_roundtrip (K : Keys) (t : Val) :
       some (.list (payloadsToPy K (dump t)), []) :=
   json_text_roundtrip _ (dump_json K t)
 
+/-- **the C08 link invariant for every object graph `load` returns** — not only for dumps: whatever payload list is
+    accepted (mutated, hand-written, keys set twice, a list overwritten by a single value …), every Expression stored
+    under `args[k]` of node `j` has `(parent, arg_key, index) = (j, k, None)` and every Expression stored at `args[k][n]`
+    has `(j, k, n)` -/
+theorem load_links_any (ps : List Payload) (A : List Cell) (h : loadArena ps = some A) : LinksOK A :=
+  loadArena_links ps A h
+
+/-- … and for the finished `copy()` (set / append with hash invalidation, direct `args[k] = …` for scalars) -/
+theorem copy_links (hashOf : Val → Option Nat) (t : Val) (B : List Cell)
+    (h : copyArena hashOf t = some B) : LinksOK B := SqlglotModel.Serde.copy_links hashOf t B h
+
+/-- **no node is reachable twice**: under `LinksOK` every slot that stores an Expression cell `r` forces `r`'s parent
+    fields to be that slot's address, and an Expression has one `(parent, arg_key, index)`: two addresses storing the same
+    node are the same address -/
+theorem node_slot_address_unique {A : List Cell} {r : Nat} {l l' : Link} {cls ty c m args lnk h}
+    (hr : A[r]? = some (Cell.node cls ty c m args lnk h)) (h1 : LinkIs A r l) (h2 : LinkIs A r l') : l = l' :=
+  linkIs_unique hr h1 h2
+
+/-- the face of a DType member `dump` writes / `_load` reads in the current source -/
+def srcDumpBy : EnumBy := EnumBy.ofString SqlglotModel.Generated.C12.dumpDTypeBy
+def srcLoadBy : EnumBy := EnumBy.ofString SqlglotModel.Generated.C12.loadDTypeBy
+
+/-- obligation on the regenerated facts (finite decision, decided completely): `dump` and `_load` use the SAME face of
+    a DType member, a recognised one, and that face is distinct over the regenerated (name, value) table of `DType` -/
+theorem generated_enum_codec_ok :
+    srcDumpBy = srcLoadBy ∧ srcDumpBy ≠ .other ∧
+    (SqlglotModel.Generated.C12.dtypeTable.map (enumFace srcDumpBy)).Nodup := by
+  decide +kernel
+
+/-- **every DType member survives the codec** of the current source (128 members today, incl. `USERDEFINED` whose value
+    `"USER-DEFINED"` differs from its name) -/
+theorem dtype_codec_roundtrip (e : String × String) (he : e ∈ SqlglotModel.Generated.C12.dtypeTable) :
+    (encodeEnum srcDumpBy e).bind (decodeEnum SqlglotModel.Generated.C12.dtypeTable srcLoadBy) = some e := by
+  have h := generated_enum_codec_ok
+  rw [← h.1]
+  exact enum_codec_roundtrip _ srcDumpBy h.2.1 h.2.2 e he
+
+/-- witness: writing the value and reading by name loses exactly the members whose two faces differ -/
+theorem dtype_codec_mismatch_witness :
+    (encodeEnum .value ("USERDEFINED", "USER-DEFINED")).bind
+      (decodeEnum [("INT", "INT"), ("USERDEFINED", "USER-DEFINED")] .name) = none := by
+  decide +kernel
+
+/-- **against the equality users observe**: `Expression.__eq__` compares the class and the `__hash__` fold (`Val.nf`: keys
+    sorted, `None` / `False` dropped, strings lower-cased except in `_hash_raw_args` classes, `_type` / comments / meta
+    ignored).  The tree `load` returns for the real dump of `t` has the same fold as `t`, for any hash rules and any
+    `type`-property tables … -/
+theorem eq_preserved_by_load_dump (R : HashRules) (TR : TypeRules) (t : Val) (hwf : (t.view TR).WF)
+    (hobj : t.isObj = true) :
+    ∃ L, load (realDump TR t) = some (some L) ∧ L.nf R = t.nf R :=
+  ⟨(t.view TR).norm, (type_view_roundtrip TR t hwf hobj).1, by rw [nf_norm, nf_view]⟩
+
+/-- … and so has the copy -/
+theorem eq_preserved_by_copy (R : HashRules) (hashOf : Val → Option Nat) (t : Val) (hwf : t.WF) (hn : t.isNode = true) :
+    ∃ c, copy hashOf t = some c ∧ c.nf R = t.nf R :=
+  ⟨t, copy_eq hashOf t hwf hn, rfl⟩
+
+/-- which equality the property needs: `==` is blind to `_type`, comments and meta (`.sql()` prints comments, the
+    optimizer reads types and meta), so "reproduces the tree exactly" must be — and above is — stated for the structural
+    equality up to `norm`; `==` follows from it, not conversely -/
+theorem eq_blind_to_type_comments_meta (R : HashRules) (cls : String) (ty ty' : Option Val) (c c' : Comments)
+    (m m' : Meta) (args : List Arg) :
+    (Val.node cls ty c m args).nf R = (Val.node cls ty' c' m' args).nf R := by
+  simp [Val.nf]
+
+/-- `==` also identifies what `norm` keeps apart: `False` and absence, `True` and `1`, upper and lower case -/
+theorem eq_coarser_than_norm_witness (R : HashRules) (hr : R.rawArgs "X" = false) (hl : R.lower "A" = R.lower "a") :
+    (Val.node "X" none none none [.one "d" (.raw (.bool false)), .one "t" (.raw (.bool true)), .one "s" (.raw (.str "A"))]).nf R =
+    (Val.node "X" none none none [.one "t" (.raw (.int 1)), .one "s" (.raw (.str "a"))]).nf R := by
+  simp [Val.nf, nfArgs, Arg.nfItems, itemOne, nfRaw, hr, hl]
+
 /-- facts re-extracted from sqlglot/serde.py and expressions/core.py on every run: the eight payload keys are pairwise
     distinct (a collision would make two payload fields overwrite each other), the DType marker is the modelled one,
     the guards and the meta comprehensions of dump/load/_load are the modelled ones, and `__reduce__` returns exactly
